@@ -972,6 +972,9 @@ ssize_t qlisttbl_load(qlisttbl_t *tbl, const char *filepath, char sepchar,
     char *offset, *buf;
     int cnt = 0;
     bool nomem = false;
+    // always append at the bottom to preserve the order as it was.
+    bool inserttop = tbl->inserttop;
+    tbl->inserttop = false;
     for (offset = str; *offset != '\0'; ) {
         // get one line into buf
         for (buf = offset; *offset != '\n' && *offset != '\0'; offset++);
@@ -1007,6 +1010,7 @@ ssize_t qlisttbl_load(qlisttbl_t *tbl, const char *filepath, char sepchar,
         free(data);
         if (nomem == true) break;
     }
+    tbl->inserttop = inserttop;
     qlisttbl_unlock(tbl);
     free(str);
 
